@@ -113,6 +113,13 @@ pub fn gen_c03(g: &mut Gen, tier: &str) {
             for u in [6i128, 0, 2] { g.push(true, Input::new("dt_since", vec![u, x, a.1, 0, y, b.1, 0])); }
         }
         g.push(true, Input::new("dt_cmp", vec![a.0, a.1, a.2, b.0, b.1, b.2]));
+        // the same instant reached through + Time / + Duration (sums landing exactly on midnight included) against the value built directly
+        if k % 3 == 0 && a.0 > DAY_MIN as i128 + 2 {
+            let n1 = if k % 2 == 0 { 0 } else { a.1 };
+            let t = *g.rng.pick(&[1i128, NPS, 43_200 * NPS, NPD - 1, NPD - NPS, 3_600 * NPS, 2 * NPD, NPD]);
+            let other = if k % 4 == 0 { (a.0, n1, off_pool(g)) } else { (b.0, b.1, b.2) };
+            g.push(true, Input::with_strs("dt_cmp", vec![a.0, n1, a.2, other.0, other.1, if k % 4 == 0 { 0 } else { other.2 }], vec![format!("sum:{}", t)]));
+        }
         // the sign of every *_since difference agrees with the order
         g.push(true, Input::new("dt_since", vec![(k % 7) as i128, a.0, a.1, a.2, b.0, b.1, b.2]));
         if k % 3 == 0 { let (tn, to) = (nanos_pool(g), off_pool(g)); let (un, uo) = (nanos_pool(g), off_pool(g));
